@@ -45,6 +45,11 @@ def c13_cases(tier):
     hs = ["executor-clean", "executor-live", "reusable", "broken", "primitives"]
     ends = ["normal", "exception", "sigkill"] + (["os_exit"] if tier != "quick" else [])
     cases = [dict(history=h, ending=e) for h in hs for e in ends]
+    for where in ("unlink", "unregister"):
+        for nth in ((1, 3) if tier == "quick" else (1, 2, 3, 5, 8)):
+            cases.append(dict(history="primitives", ending=f"kill_at_{where}:{nth}"))
+            if nth == 1:
+                cases.append(dict(history="executor-clean", ending=f"kill_at_{where}:{nth}"))
     cases.append(dict(history="primitives", ending="sigkill", release=False))
     cases.append(dict(history="primitives", ending="normal", release=False))
     return cases
@@ -60,6 +65,14 @@ def run_c13(tier, nproc=6):
     for c, r in zip(cases, rs):
         tag = f"{c['history']}:{c['ending']}" + (":unreleased" if c.get("release") is False else "")
         res, post = r["result"], r["post"]
+        if c["ending"].startswith("kill_at_") and r["status"] == "ok" and post and "left" in post:
+            if r["rc"] != -9:
+                viol.append((f"C13:R:scenario-failed:{tag}", f"crash point never reached rc={r['rc']}", c))
+            elif post["left"]:
+                viol.append((f"C13:R:sem-outlives-tree:{tag}",
+                             f"{len(post['left'])} named semaphores left after a death inside the "
+                             f"cleanup of a semaphore: {post['left'][:4]}", c))
+            continue
         if r["status"] != "ok" or res is None or post is None or "post_error" in (post or {}):
             viol.append((f"C13:R:scenario-failed:{tag}", f"{r['status']} rc={r['rc']} {res} {post} "
                                                          f"{r['stdio'][-400:]}", c))
